@@ -134,7 +134,15 @@ def run_impl(hist, spy_prios=None):
                     ops = bc.add_headers(hdrs)
                     if len(cb_ops) != n_cb + 1 or cb_ops[-1] != ops:
                         cb_mismatch = True
+                    raw_ops = ops
                     ops = [(kind == "add", back[hd.hash()], idx) for kind, hd, idx in ops]
+                    # a caller may do what it likes with the list it was handed (log += ops ...): edit it in place after
+                    # reading it; a later delivery must not hand the edited list back (seed C15-e1: one shared empty list)
+                    try:
+                        raw_ops.append(("remove", hdrs[0] if hdrs else Hdr(L(hist["anchor"]), L(hist["anchor"]), 1), 987654))
+                        raw_ops.reverse()
+                    except AttributeError:
+                        pass
                 else:
                     bc.lock_to_index(ev[1])
                     ops = None
